@@ -9,6 +9,9 @@ import YaegiVerif.Spec.GoCore
     for c {b}              c.tnext = b.start   c.fnext = n.tnext   b.tnext = c.start
     for i; c; p {b}        c.tnext = b.start   c.fnext = n.tnext   b.tnext = p.start   p.tnext = c.start
     break / continue       tnext = exit of the enclosing loop / its post (or cond) statement
+    x = f(args)            run.go `call`: the arguments are copied into a fresh frame, the callee's graph
+                           runs to its `return`, the result is copied to x and control goes on to tnext
+                           (modelled with an explicit stack of suspended frames instead of Go's own stack)
     a && b                 a.tnext = b.start   a.fnext = false exit ; b decides
     a || b                 a.tnext = true exit ; a.fnext = b.start ; b decides
 
@@ -22,6 +25,8 @@ inductive Instr where
   | assign (x : Nat) (e : Expr) (next : Nat)
   | print (e : Expr) (next : Nat)
   | branch (op : CmpOp) (a b : Expr) (t f : Nat)
+  | call (x : Nat) (entry : Nat) (args : List Expr) (next : Nat)
+  | ret (e : Expr)
   deriving Repr
 
 def BExpr.size : BExpr → Nat
@@ -41,6 +46,8 @@ def Stmt.size : Stmt → Nat
   | .brk => 1
   | .cont => 1
   | .switch cs => cs.size
+  | .ret _ => 1
+  | .call _ _ _ => 1
 def Clauses.size : Clauses → Nat
   | .nil => 1
   | .cons c body _ rest => c.size + body.size + rest.size
@@ -61,70 +68,112 @@ def compileCond : BExpr → (base t f : Nat) → List Instr
 
 mutual
 /-- statement placed at `base`; `next` = where control goes when it ends normally,
-    `brk` / `cont` = targets of break / continue -/
-def compile : Stmt → (base next brk cont : Nat) → List Instr
+    `brk` / `cont` = targets of break / continue; `ent g` = address of the graph of function `g` -/
+def compile (ent : Nat → Nat) : Stmt → (base next brk cont : Nat) → List Instr
   | .skip, _, next, _, _ => [.nop next]
   | .seq a b, base, next, brk, cont =>
-    compile a base (base + a.size) brk cont ++ compile b (base + a.size) next brk cont
+    compile ent a base (base + a.size) brk cont ++ compile ent b (base + a.size) next brk cont
   | .assign x e, _, next, _, _ => [.assign x e next]
   | .print e, _, next, _, _ => [.print e next]
   | .ite c t e, base, next, brk, cont =>
     compileCond c base (base + c.size) (base + c.size + t.size) ++
-    compile t (base + c.size) next brk cont ++
-    compile e (base + c.size + t.size) next brk cont
+    compile ent t (base + c.size) next brk cont ++
+    compile ent e (base + c.size + t.size) next brk cont
   | .loop c body post, base, next, _, _ =>
     compileCond c base (base + c.size) next ++
-    compile body (base + c.size) (base + c.size + body.size) next (base + c.size + body.size) ++
-    compile post (base + c.size + body.size) base next (base + c.size + body.size)
+    compile ent body (base + c.size) (base + c.size + body.size) next (base + c.size + body.size) ++
+    compile ent post (base + c.size + body.size) base next (base + c.size + body.size)
   | .brk, _, _, brk, _ => [.nop brk]
   | .cont, _, _, _, cont => [.nop cont]
-  | .switch cs, base, next, _, cont => compileClauses cs base next cont
+  | .switch cs, base, next, _, cont => compileClauses ent cs base next cont
+  | .ret e, _, _, _, _ => [.ret e]
+  | .call x g args, _, next, _, _ => [.call x (ent g) args next]
 
 /-- clause list placed at `base`: test, body, test, body, …, and a final jump to `next` taken when no
     clause matches. A failed test goes to the next test, a body ends at the exit of the switch or —
     after `fallthrough` — at the start of the next body; `break` inside a body leaves the switch. -/
-def compileClauses : Clauses → (base next cont : Nat) → List Instr
+def compileClauses (ent : Nat → Nat) : Clauses → (base next cont : Nat) → List Instr
   | .nil, _, next, _ => [.nop next]
   | .cons c body fall rest, base, next, cont =>
     compileCond c base (base + c.size) (base + c.size + body.size) ++
-    compile body (base + c.size)
+    compile ent body (base + c.size)
       (if fall then rest.bodyStart (base + c.size + body.size) else next) next cont ++
-    compileClauses rest (base + c.size + body.size) next cont
+    compileClauses ent rest (base + c.size + body.size) next cont
 end
+
+/-- a suspended caller: where to resume, its variables, and the variable that receives the result -/
+structure Frame where
+  ret : Nat
+  saved : Nat → Val
+  dst : Nat
 
 /-- state of the execution loop -/
 inductive MState where
-  | run (pc : Nat) (s : St)
+  | run (pc : Nat) (s : St) (σ : List Frame)
   | panicked (s : St)
+  | done (s : St)              -- the outermost function returned
 
-/-- one iteration of `exec = exec(f)`; `none` when there is no node at `pc` (the loop ended) or
-    the machine has already panicked -/
+/-- a `return v` with suspended callers `σ` -/
+def doReturn (v : Val) (s : St) : List Frame → MState
+  | [] => .done s
+  | fr :: σ => .run fr.ret { vars := fun y => if y = fr.dst then v else fr.saved y, out := s.out } σ
+
+/-- one iteration of `exec = exec(f)`; `none` when there is no node at `pc` (the loop ended), the
+    outermost function has returned, or the machine has already panicked -/
 def step (code : List Instr) : MState → Option MState
   | .panicked _ => none
-  | .run pc s =>
+  | .done _ => none
+  | .run pc s σ =>
     match code[pc]? with
     | none => none
-    | some (.nop next) => some (.run next s)
+    | some (.nop next) => some (.run next s σ)
     | some (.assign x e next) =>
       (match e.eval s with
-       | some v => some (.run next (s.set x v))
+       | some v => some (.run next (s.set x v) σ)
        | none => some (.panicked s))
     | some (.print e next) =>
       (match e.eval s with
-       | some v => some (.run next (s.emit v))
+       | some v => some (.run next (s.emit v) σ)
        | none => some (.panicked s))
     | some (.branch op a b t f) =>
       (match a.eval s, b.eval s with
-       | some x, some y => some (.run (if op.eval x y then t else f) s)
+       | some x, some y => some (.run (if op.eval x y then t else f) s σ)
        | _, _ => some (.panicked s))
+    | some (.call x entry args next) =>
+      (match evalArgs s args with
+       | some vals => some (.run entry (calleeSt s vals) (⟨next, s.vars, x⟩ :: σ))
+       | none => some (.panicked s))
+    | some (.ret e) =>
+      (match e.eval s with
+       | some v => some (doReturn v s σ)
+       | none => some (.panicked s))
 
 /-- exactly `n` iterations -/
 def steps (code : List Instr) : Nat → MState → Option MState
   | 0, m => some m
   | n + 1, m => (step code m).bind (steps code n)
 
-/-- a whole program: compiled at 0, every exit is the end of the code -/
-def compileProg (p : Stmt) : List Instr := compile p 0 p.size p.size p.size
+/-- code of one function: its body followed by `return 0` (reached only by bodies that fall off
+    their end, which valid Go does not have) -/
+def compileFn (ent : Nat → Nat) (body : Stmt) (base : Nat) : List Instr :=
+  compile ent body base (base + body.size) (base + body.size) (base + body.size) ++ [.ret (.lit 0)]
+
+/-- offset of function `g` inside the block of function graphs -/
+def offset : Funs → Nat → Nat
+  | [], _ => 0
+  | _ :: _, 0 => 0
+  | b :: bs, g + 1 => b.size + 1 + offset bs g
+
+/-- address of function `g`: main (and its trailing `return`) comes first -/
+def entryOf (main : Stmt) (fs : Funs) (g : Nat) : Nat := main.size + 1 + offset fs g
+
+def compileFuns (ent : Nat → Nat) : Funs → Nat → List Instr
+  | [], _ => []
+  | b :: bs, base => compileFn ent b base ++ compileFuns ent bs (base + b.size + 1)
+
+/-- a whole program: main compiled at 0 (as a function), then every declared function -/
+def compileProg (fs : Funs) (main : Stmt) : List Instr :=
+  compileFn (entryOf main fs) main 0 ++ compileFuns (entryOf main fs) fs (main.size + 1)
 
 /-- run to completion with a bound on the number of iterations (driver) -/
 def runFuel (code : List Instr) : Nat → MState → Option MState
